@@ -107,7 +107,7 @@ def class_worker(ctx, name: str) -> None:
     exhaustive = D.is_binary(T) or T.payload_length <= 2
     seen: set = set()
     gen = acc = nt = with_none = 0
-    for spec in D.roundtrip_specs(T, rng, quick=ctx.quick, n_f32=0, n_random=ctx.n(2500, 80000)):
+    for spec in D.roundtrip_specs(T, rng, quick=ctx.quick, n_f32=0, n_random=ctx.n(2500, 80000), pairs_quick="field16"):
         gen += 1
         if not exhaustive:
             if spec in seen:
